@@ -13,3 +13,18 @@ func init() {
 		thorough:      []buildSpec{plain(16)},
 	}
 }
+
+func init() {
+	props["C14"] = propSpec{
+		level: "exploration",
+		rule: "(a) seeded rounds re-using one WaitGroup 1-5 times: 1-64 workers started through Add/Inc/Launch/DoTimes/StartGroup/Operation.Add, 1-8 waiters (Wait or Worker) entering before/during/after the Dones, " +
+			"worker speed profiles, GOMAXPROCS 1/2/4/16, optionally cancelling a strict subset of the waiters while the counter is positive; safety by happens-before stamps (worker stamps before Done, waiter after Wait returns), " +
+			"liveness as bounded progress at quiescence (goroutine census); (b) hook scenarios placing a cancel and/or the last Done exactly between the waiter's predicate check and cond.Wait; " +
+			"(c) counter-arithmetic scripts incl. the negative-Add panic. distinct_nontrivial = distinct (worker class, waiters, start mode, speed, cancel-subset, GOMAXPROCS, round) with >=2 workers and >=2 waiters, plus hook and script configurations",
+		assumptions:   append([]string{"liveness is decided only at quiescence of a scenario without timers; a watchdog expiry without quiescence is inconclusive"}, commonAssumptions...),
+		floorEvals:    300,
+		floorDistinct: 30,
+		quick:         []buildSpec{plain(8)},
+		thorough:      []buildSpec{plain(16), race(4)},
+	}
+}
